@@ -44,10 +44,10 @@ type Spec struct {
 }
 
 var (
-	onceGlobals sync.Once
+	onceGlobals  sync.Once
 	h4sid, h4dns handler.Handler4
 	h6sid, h6dns handler.Handler6
-	seq         atomic.Int64
+	seq          atomic.Int64
 )
 
 var ownDUID = []byte{0, 3, 0, 1, 0, 0xde, 0xad, 0xbe, 0xef, 0}
@@ -83,15 +83,15 @@ func staticFile(proto int, variant string) string {
 
 // env is one fresh instance of a chain.
 type env struct {
-	spec   Spec
-	hs4    []handler.Handler4
-	hs6    []handler.Handler6
-	rng    *rangeplugin.PluginState
-	pd     *prefix.Handler
-	db     string
-	mu     sync.Mutex
-	sent   []server.VerifSent
-	fpath  string
+	spec    Spec
+	hs4     []handler.Handler4
+	hs6     []handler.Handler6
+	rng     *rangeplugin.PluginState
+	pd      *prefix.Handler
+	db      string
+	mu      sync.Mutex
+	sent    []server.VerifSent
+	fpath   string
 	release func()
 }
 
